@@ -219,6 +219,8 @@ def main(args):
         "faults_configured": total.get("faults_configured", {}),
         "faults_fired": total.get("faults_fired", {}),
         "distinct_fault_sites": len(total.get("sites", ())),
+        "distinct_interleavings": len(total.get("interleavings", ())),
+        "interleaving_measure": "distinct digests of (materialisation mode, [(operation, fault kind, outcome class) per step])",
         "outcomes": total.get("outcomes", {}),
         "probes": {
             "lazy_load_inside_compile_steps": total.get("lazy_io_steps", 0),
